@@ -514,6 +514,62 @@ def _meta_replay(job):
 _meta_replay.n = 0
 
 
+#: scalar features that are stored as unsigned integers (counts, indices,
+#: raw fluorescence maxima); every other scalar feature holds real numbers
+INTEGER_TYPED = {"fl1_max", "fl1_npeaks", "fl2_max", "fl2_npeaks", "fl3_max",
+                 "fl3_npeaks", "index", "ml_class", "nevents", "frame"}
+
+
+def _scalar_sweep(job):
+    """every scalar feature name of dclab.definitions: real numbers
+    (fractions, negative values) written in two append calls are read back
+    bit-exactly; integer-typed features keep their integers"""
+    import dclab
+    import os
+    import warnings
+    from dclab.rtdc_dataset import RTDCWriter
+    names, root = job
+    out = []
+    for name in names:
+        path = root / ("sw%d_%s.rtdc" % (os.getpid(), name))
+        k = sum(ord(c_) for c_ in name) % 7
+        if name in INTEGER_TYPED:
+            a = np.arange(3, 8, dtype=float) * (k + 1)
+            b = np.arange(20, 23, dtype=float) + k
+        else:
+            a = np.array([0.5, -1.25, 3.75, 1e-3, 12345.678]) * (k + 1)
+            b = np.array([-0.125, 7.0, 2.5]) - k
+        want = np.arange(1, 9, dtype=float) if name == "index" \
+            else np.concatenate([a, b])
+        try:
+            with warnings.catch_warnings():
+                warnings.simplefilter("ignore")
+                m = {k_: dict(v) for k_, v in gen.META.items()}
+                with RTDCWriter(path, mode="reset") as hw:
+                    hw.store_metadata(m)
+                    hw.store_feature(name, a)
+                    hw.store_feature(name, b)
+                with dclab.new_dataset(path) as ds:
+                    got = np.asarray(ds[name][:], dtype=float) \
+                        if name in ds.features_innate else None
+            if got is None:
+                out.append((name, "stored scalar feature is not offered as "
+                            "stored", ""))
+            elif not np.array_equal(got, want):
+                out.append((name, "scalar feature values differ after two "
+                            "appends (%s-valued feature)" % (
+                                "integer" if name in INTEGER_TYPED
+                                else "real"), "%s: wrote %s read %s" % (
+                                    name, want.tolist(), got.tolist())))
+        except Exception as exc:
+            out.append((name, "storing a scalar feature raises %s"
+                        % type(exc).__name__, "%s: %r" % (name, exc)))
+        finally:
+            if path.exists():
+                path.unlink()
+    return len(names), out
+
+
 def main(tier, seed, replay=None):
     import_dclab()
     ev = evidence.Evidence(PID, tier, seed)
@@ -606,6 +662,19 @@ def main(tier, seed, replay=None):
                                          if s_.startswith("meta")) >= 2)
             if viol:
                 rep.violation(viol[0], viol[1], case, size=viol[2])
+        # 2c. every scalar feature name: real numbers survive two appends
+        from dclab import definitions as dfn
+        allsc = sorted(f for f in dfn.scalar_feature_names
+                       if f not in ("time",))
+        chunks = [allsc[i::16] for i in range(16)]
+        nsw = 0
+        for cnt, viols in par.pmap(_scalar_sweep, [(c_, root) for c_ in chunks
+                                                   if c_], chunk=1):
+            nsw += cnt
+            ev.traces += cnt
+            for name, sig, detail in viols:
+                rep.violation(sig, detail, {"feature": name}, size=1)
+        ev.extra["scalar_features_swept"] = nsw
         # 3. code -> spec: long random sessions judged by TLC (WriterTrace)
         nses = 150 if q else 600
         recs = par.pmap(record_session,
